@@ -2581,6 +2581,10 @@ namespace detail {
                 {
                     case token_kind::literal:
                     {
+                        if (!stack.empty()) // e.g. after a pipe: the literal replaces the current value
+                        {
+                            stack.pop_back();
+                        }
                         stack.emplace_back(t.value_);
                         break;
                     }
